@@ -159,7 +159,29 @@ func genC11(r *Rand, n int, thorough bool, emit func(string)) {
 		if !tame(txt) {
 			continue
 		}
-		emit(fmt.Sprintf("padrange %s %d", hx(txt), r.Range(-1, 8)))
+		w := r.Range(-1, 8)
+		if r.Chance(1, 8) {
+			w = r.Range(9, 24)
+		}
+		emit(fmt.Sprintf("padrange %s %d", hx(txt), w))
+		if i%40 == 7 {
+			// many components (13-40), every count in turn
+			cnt := 13 + (i/40)%28
+			many := make([]string, cnt)
+			for j := range many {
+				many[j] = genComp(r, 60, false).text(r)
+			}
+			emit(fmt.Sprintf("padrange %s %d", hx(strings.Join(many, ",")), r.Range(2, 6)))
+		}
+		if i%40 == 23 {
+			// two calls whose (text, width) pairs run into each other when written without a
+			// separator: ("100", 12) and ("1001", 2)
+			num := strconv.Itoa(r.Range(1, 999))
+			w1 := r.Range(10, 24)
+			ws := strconv.Itoa(w1)
+			emit(fmt.Sprintf("padrange %s %d", hx(num), w1))
+			emit(fmt.Sprintf("padrange %s %d", hx(num+ws[:1]), atoi(ws[1:])))
+		}
 	}
 }
 
